@@ -1,0 +1,87 @@
+//go:build verif
+
+/*
+ * Snapshot accessors for the /verif harness (build tag verif); add-only.
+ */
+
+package ristretto
+
+import (
+	"sort"
+	"time"
+)
+
+// VerifSetBufSize sets the capacity used for setBuf by subsequently created caches and
+// returns the previous value.
+func VerifSetBufSize(n int) int {
+	old := setBufSize
+	setBufSize = n
+	return old
+}
+
+// VerifItemSize is the internal per-item cost.
+const VerifItemSize = itemSize
+
+type VerifStoreEntry[V any] struct {
+	Key, Conflict uint64
+	Value         V
+	Expiration    time.Time
+}
+
+type VerifBucket struct {
+	Num  int64
+	Keys [][2]uint64 // (key, conflict), sorted by key
+}
+
+type VerifKeyCost struct {
+	Key  uint64
+	Cost int64
+}
+
+// VerifSnapshot is a canonical (sorted) copy of the cache's internal indexes.
+type VerifSnapshot[V any] struct {
+	Store       []VerifStoreEntry[V]
+	Buckets     []VerifBucket
+	LastCleaned int64
+	KeyCosts    []VerifKeyCost
+	Used        int64
+	MaxCost     int64
+	BufLen      int
+}
+
+func (c *Cache[K, V]) VerifSnapshot() VerifSnapshot[V] {
+	var s VerifSnapshot[V]
+	sm := c.storedItems.(*shardedMap[V])
+	for _, sh := range sm.shards {
+		sh.RLock()
+		for _, it := range sh.data {
+			s.Store = append(s.Store, VerifStoreEntry[V]{it.key, it.conflict, it.value, it.expiration})
+		}
+		sh.RUnlock()
+	}
+	sort.Slice(s.Store, func(i, j int) bool { return s.Store[i].Key < s.Store[j].Key })
+	em := sm.expiryMap
+	em.RLock()
+	for num, b := range em.buckets {
+		vb := VerifBucket{Num: num}
+		for k, cf := range b {
+			vb.Keys = append(vb.Keys, [2]uint64{k, cf})
+		}
+		sort.Slice(vb.Keys, func(i, j int) bool { return vb.Keys[i][0] < vb.Keys[j][0] })
+		s.Buckets = append(s.Buckets, vb)
+	}
+	s.LastCleaned = em.lastCleanedBucketNum
+	em.RUnlock()
+	sort.Slice(s.Buckets, func(i, j int) bool { return s.Buckets[i].Num < s.Buckets[j].Num })
+	p := c.cachePolicy
+	p.Lock()
+	for k, cost := range p.evict.keyCosts {
+		s.KeyCosts = append(s.KeyCosts, VerifKeyCost{k, cost})
+	}
+	s.Used = p.evict.used
+	s.MaxCost = p.evict.getMaxCost()
+	p.Unlock()
+	sort.Slice(s.KeyCosts, func(i, j int) bool { return s.KeyCosts[i].Key < s.KeyCosts[j].Key })
+	s.BufLen = len(c.setBuf)
+	return s
+}
